@@ -385,12 +385,110 @@ func ascendingInduction(phi *ssa.Phi) (int64, bool) {
 	return start, nconst == 1
 }
 
+type creation struct {
+	sm      *Summary
+	created *Sym
+}
+
+// checkReissueAtCreation: the variant in which the list of options every evaluation runs with is built once, by
+// CreateEvaluator, and kept in a field that Evaluate hands to the dispatcher as it is. The same obligations, decided at
+// creation: the list re-issues exactly the tag name and the hook of getOpts(own options) and the unknown value iff one
+// was configured; nothing else writes the field.
+func checkReissueAtCreation(r *Run, prog *Program, a *Anchors, pfx, listField string, optsSym *Sym, creations []creation, fas []FieldAccess, evT types.Object) {
+	r.Floor(pfx+".pipeline", 6)
+	pipeSpec = pipeRows(prog)
+	pos := prog.pos(a.CreateEv.Pos())
+	unkF := &Sym{K: sField, A: optsSym, Str: optField(prog, "WithUnknownValue")}
+	seenUnk, seenNoUnk := false, false
+	for _, c := range creations {
+		L := getPath(c.created, []string{listField})
+		for L != nil && L.K == sSlice && L.Str != ":" {
+			// opts[:len(opts):len(opts)] — the same elements, capacity clipped
+			if strings.HasSuffix(L.Str, ":"+(&Sym{K: sLen, A: L.A}).Key()) || strings.HasPrefix(L.Str, ":") {
+				L = L.A
+				continue
+			}
+			break
+		}
+		var elems []*Sym
+		ok := L != nil
+		if ok {
+			base, parts := appendChain(c.sm.St, L)
+			if len(parts) > 0 {
+				be, okB := sliceElems(c.sm.St, base, nil)
+				ok = okB
+				elems = append(elems, be...)
+				for _, e := range flattenAppended(c.sm.St, parts, 0) {
+					if e == nil {
+						ok = false
+					}
+					elems = append(elems, e)
+				}
+			} else {
+				elems, ok = sliceElems(c.sm.St, L, nil)
+			}
+		}
+		if !ok {
+			r.Check(pfx+".pipeline", "create:options-list", pos, false, "the option list kept in Evaluator."+listField+" is not a literal list of re-issued options: "+shortKey(L))
+			continue
+		}
+		got := map[string]string{}
+		for _, el := range elems {
+			callee, _ := calleeOfSym(el)
+			args := symArgs(c.sm.St, el)
+			if callee == nil || len(args) != 1 {
+				r.Check(pfx+".pipeline", "create:option-form", pos, false, "an option kept for the evaluations is not a constructor applied to one value: "+shortKey(el))
+				continue
+			}
+			got[callee.Name()] = args[0].Key()
+		}
+		unkNil, known := evalEq(c.sm.St, unkF, nilSym())
+		for _, row := range pipeSpec {
+			if !row.reissued {
+				if _, has := got[row.ctor]; has {
+					r.Check(pfx+".pipeline", "evaluate:"+row.ctor, pos, false, row.ctor+" is re-issued for every Evaluate although it only concerns creation")
+				}
+				continue
+			}
+			want := (&Sym{K: sField, A: optsSym, Str: row.field}).Key()
+			if row.ctor == "WithUnknownValue" {
+				if !known {
+					r.Check(pfx+".pipeline", "evaluate:"+row.ctor, pos, false, "CreateEvaluator does not test whether an unknown value was configured")
+					continue
+				}
+				want = (&Sym{K: sLoad, A: unkF}).Key()
+				if unkNil {
+					seenNoUnk = true
+					_, has := got[row.ctor]
+					r.Check(pfx+".pipeline", "evaluate:"+row.ctor+":unset", pos, !has, "an unknown value is issued although none was configured")
+					continue
+				}
+				seenUnk = true
+			}
+			g, has := got[row.ctor]
+			r.Check(pfx+".pipeline", "evaluate:"+row.ctor, pos, has && g == want,
+				fmt.Sprintf("every Evaluate must run with %s of the creation-time value (option %s of getOpts(own options)); issued: %v (%s)", row.ctor, row.field, has, g))
+		}
+	}
+	r.Check(pfx+".pipeline", "evaluate:paths", pos, seenUnk && seenNoUnk, "info: creation paths with and without an unknown value")
+	// no other writer of the list
+	n := 0
+	for _, fa := range fas {
+		if fa.Struct.Obj() == evT && fa.Field == listField && fa.Kind == "write" {
+			n++
+			r.Check(pfx+".pipeline", "writer:Evaluator."+listField+":"+fa.Fn.Name(), prog.pos(fa.Instr.Pos()), prog.ctorHelper(a, fa.Fn, 0), "Evaluator."+listField+" is written outside CreateEvaluator: creation-time options would no longer govern every Evaluate")
+		}
+	}
+	r.Check(pfx+".pipeline", "writers:Evaluator."+listField, pos, n == 1, fmt.Sprintf("%d writers of Evaluator.%s", n, listField))
+}
+
 func checkEvaluatorPipeline(r *Run, prog *Program, a *Anchors, pfx string) {
 	evT := prog.Bexpr.Types.Scope().Lookup("Evaluator")
 	fas := prog.FieldAccesses(prog.ModuleFuncs())
 	// creation: Evaluator.<evalField> = getOpts(opts...).<field>, written only in CreateEvaluator
 	psC := NewPathSim(prog)
 	psC.Inline = func(c *ssa.Function) bool { return bexprHelper(prog, a, c) && !recursive(prog, c) } // constructor helpers
+	var creations []creation
 	var created *Sym
 	var optsSym *Sym
 	var pOpts = paramSym(a.CreateEv.Params[1])
@@ -405,8 +503,29 @@ func checkEvaluatorPipeline(r *Run, prog *Program, a *Anchors, pfx string) {
 		if al, path, ok := localPath(sm.Results[0]); ok {
 			if v, ok := loadLocal(sm.St, al, path, nil); ok {
 				created = v
+				creations = append(creations, creation{sm, v})
 			}
 		}
+	}
+	// does Evaluate hand over a list kept in a field of the Evaluator (built once, at creation)?
+	listField := ""
+	{
+		pR := paramSym(a.EvaluateM.Params[0])
+		psL := NewPathSim(prog)
+		psL.Inline = func(c *ssa.Function) bool {
+			return prog.InModule(c) && c != a.Dispatch && c.Signature.Recv() != nil && namedIs(c.Signature.Recv().Type(), modPath, "Evaluator")
+		}
+		for _, sm := range psL.Run(a.EvaluateM) {
+			for _, ev := range sm.callsTo(a.Dispatch) {
+				if l := ev.Args[len(ev.Args)-1]; l.K == sLoad && l.A.K == sFieldAddr && l.A.A.Key() == pR.Key() {
+					listField = l.A.Str
+				}
+			}
+		}
+	}
+	if listField != "" && optsSym != nil && len(creations) > 0 {
+		checkReissueAtCreation(r, prog, a, pfx, listField, optsSym, creations, fas, evT)
+		return
 	}
 	if created == nil || optsSym == nil {
 		r.Fail("undecided", pfx+".pipeline", "CreateEvaluator", prog.pos(a.CreateEv.Pos()), "cannot reconstruct the Evaluator literal / the getOpts call of CreateEvaluator")
